@@ -270,7 +270,9 @@ def replay_paths(sub, chunk):
                 outcome, exc = "ok", None
                 try:
                     perform(wt, root, name, args)
-                except Exception as e:       # noqa: every exception is an outcome here
+                except BaseException as e:   # noqa: every exception is an outcome here (a Rust panic arrives as
+                    if isinstance(e, (KeyboardInterrupt, SystemExit)):      # pyo3 PanicException, a BaseException)
+                        raise
                     outcome, exc = "rejected", e
                     if wt.is_locked():       # a failed call must not leave the tree locked
                         sub.drift("%s left the tree locked after %s" % (name, type(e).__name__), {"format": fmt, "calls": calls})
@@ -477,7 +479,7 @@ def replay(ctx, rep):
         try:
             perform(wt, root, name, args)
             out = "ok"
-        except Exception as e:      # noqa
+        except BaseException as e:      # noqa
             out = "raised %s: %s" % (type(e).__name__, str(e)[:100])
         if name == "Reopen":
             wt = open_tree(root)
